@@ -147,6 +147,50 @@ static void trychurn (int n) {
 	pthread_join (a, NULL); pthread_join (b, NULL);
 	if (do_call (16, 1, "wtry")) do_call (16, 1, "wunlock");
 }
+/* mutual exclusion without the event log in the way (taking event numbers around every call keeps the calls microseconds apart): six threads
+ * take the lock - three with the blocking call, three by retrying trylock - and count how many are inside; two inside at once is an Overlap event that
+ * no spec action explains.  A second lock object is hammered by the same threads in alternation, so that whatever the implementation shares
+ * between objects is shared here too. */
+static volatile int ex_inside[2], ex_overlap, ex_stop; static int ex_n;
+static PMutex *ex_mx2; static PSpinLock *ex_sp2; static PRWLock *ex_rw2;
+static void ex_lock (int o, int use_try) {
+	if (o == 0) { if (use_try) { while (!raw_try ()) if (ex_stop) return; } else raw_lock (); }
+	else if (kind[0] == 'm') { if (use_try) { while (!p_mutex_trylock (ex_mx2)) if (ex_stop) return; } else p_mutex_lock (ex_mx2); }
+	else if (kind[0] == 's') { if (use_try) { while (!p_spinlock_trylock (ex_sp2)) if (ex_stop) return; } else p_spinlock_lock (ex_sp2); }
+	else { if (use_try) { while (!p_rwlock_writer_trylock (ex_rw2)) if (ex_stop) return; } else p_rwlock_writer_lock (ex_rw2); }
+}
+static void ex_unlock (int o) {
+	if (o == 0) raw_unlock (); else if (kind[0] == 'm') p_mutex_unlock (ex_mx2); else if (kind[0] == 's') p_spinlock_unlock (ex_sp2); else p_rwlock_writer_unlock (ex_rw2);
+}
+static void *excl_thread (void *arg) {
+	int me = (int) (long) arg, i, use_try = me & 1;
+	for (i = 0; i < ex_n && !ex_stop; i++) {
+		int o = ((i >> 6) + me) & 1; volatile int w;
+		ex_lock (o, use_try);
+		if (ex_stop) break;
+		if (__atomic_add_fetch (&ex_inside[o], 1, __ATOMIC_SEQ_CST) != 1) ex_overlap = 1;
+		for (w = 0; w < 60; w++) ;          /* stay inside for a moment: the others are contending meanwhile */
+		if ((i & 4095) == 0) sched_yield ();
+		__atomic_sub_fetch (&ex_inside[o], 1, __ATOMIC_SEQ_CST);
+		ex_unlock (o);
+	}
+	return NULL;
+}
+static void exclchurn (int n) {
+	pthread_t t[6]; int i; double t0 = now_s (); volatile int done = 0; (void) done;
+	{ cpu_set_t all; int c = 1; if (sched_getaffinity (0, sizeof all, &all) == 0) c = CPU_COUNT (&all); if (c < 2) n /= 50; }
+	ex_n = n; ex_overlap = 0; ex_stop = 0; ex_inside[0] = ex_inside[1] = 0;
+	ex_mx2 = kind[0] == 'm' ? p_mutex_new () : NULL; ex_sp2 = kind[0] == 's' ? p_spinlock_new () : NULL; ex_rw2 = kind[0] == 'r' ? p_rwlock_new () : NULL;
+	for (i = 0; i < 6; i++) pthread_create (&t[i], NULL, excl_thread, (void *) (long) i);
+	for (i = 0; i < 6; i++) {
+		/* a watchdog rather than a plain join: a lock that was lost on the way would hang the driver */
+		struct timespec ts; clock_gettime (CLOCK_REALTIME, &ts); ts.tv_sec += 30;
+		if (pthread_timedjoin_np (t[i], NULL, &ts) != 0) { ex_stop = 1; VTM ("\"e\":\"LockDead\",\"t\":15,\"o\":1"); vtm_close (); fflush (NULL); _exit (0); }
+	}
+	(void) t0;
+	if (ex_overlap) VTM ("\"e\":\"Overlap\",\"t\":15,\"o\":1");
+	if (ex_mx2) p_mutex_free (ex_mx2); if (ex_sp2) p_spinlock_free (ex_sp2); if (ex_rw2) p_rwlock_free (ex_rw2);
+}
 /* "any number of readers": thread 16 enters as a reader through trylock and stays inside until thread 15 has been inside as a reader too (once
  * through the blocking call, once through trylock); if thread 15 has not got in after 3 s the readers are not shared (ReadBlocked event) */
 static void *share_helper (void *arg) {
@@ -201,7 +245,7 @@ int main (int argc, char **argv) {
 		vtm_barrier ();
 	}
 	for (i = 1; i <= nth; i++) pthread_join (th[i], NULL);
-	if (nth <= 14) { tryhold (); tryrace (100000); trychurn (300000); if (kind[0] == 'r') sharehold (); }
+	if (nth <= 14) { tryhold (); tryrace (100000); trychurn (300000); exclchurn (100000); if (kind[0] == 'r') sharehold (); }
 	VTM ("\"e\":\"Epoch\"");
 	for (i = 1; i <= nobj; i++) { if (mx[i]) p_mutex_free (mx[i]); if (sp[i]) p_spinlock_free (sp[i]); if (rw[i]) p_rwlock_free (rw[i]); }
 	vtm_close ();
